@@ -322,6 +322,8 @@ def finish(a, cfg, hs, results, extra, seed, t0):
                   % (k["id"], json.dumps(res)[:300]))
             rc = 3
     if violations:
+        for u in undecided[:5]:
+            print("UNDECIDED property=%s obligation=%s[%s] reason=%s" % (prop, u["harness"], u["case"], u["reason"]))
         for v in violations:
             print("VIOLATION property=%s replay=%s obligation=%s (%d refuted VCs)%s"
                   % (prop, v["replay"], v["obligation"], v["count"], "" if v["reproduced"] else " no-failing-input-found"))
